@@ -398,6 +398,8 @@ def build_output(proj, spec, fs):
         "eko.quantities.heavy_quarks.MatchingScales": R._matching_scales,
         "eko.matchings.Atlas": R._atlas,
         "eko.matchings.nf_default": R.make_nf_default(cell),
+        "numpy.searchsorted": R.make_searchsorted(cell),
+        "numpy.digitize": R.make_digitize(cell),
     }
     ext.update(make_io(fs))
     ev = S.Evaluator(proj, on_call=P.above_threshold_hook, on_compare=R.make_compare(True), lenient_ext=True, ext_calls=ext)
